@@ -254,7 +254,7 @@ func (m c14) Run(c *core.Ctx) {
 			}
 		}
 	}
-	n := c.Pick(120, 2500)
+	n := c.Pick(120, 20000)
 	o := gen.Opts{MaxStmts: 22, MaxDepth: 4, ExprDepth: 2, Try: 0.4, Throw: 0.2, Funcs: 1.0, Shadow: 0.15, LogProb: 0.15, Globals: true,
 		DeepRecursion: 6, ImportProb: 0.1, CallVia: "CALL"}
 	var lastSrc string
